@@ -262,6 +262,18 @@ def stepOp : Table × Nat → Op → Table × Nat
   | (t, now), .expire => (t.expire now, now)
   | (t, now), .advance s => (t, now + s)
 
+theorem reach_step (s : Table × Nat) (op : Op) (h : TInv s.1) : TInv (stepOp s op).1 := by
+  obtain ⟨t, now⟩ := s
+  cases op with
+  | add m g q => exact add_inv t m g q now h
+  | find m g => exact h
+  | remove m g => exact (remove_inv_spec t m g now h).1
+  | clear => exact create_inv
+  | complete m g => exact (complete_inv_spec t m g now h).1
+  | update => exact updateStatus_inv t h.len h.nodup h.count
+  | expire => exact (expire_inv_spec t now h).1
+  | advance s => exact h
+
 /-- under ANY sequence of add / find / remove / clear / completion / status update / expiry tick / clock advance
     the table stays consistent (hence, by `viewOk_of_inv`, at most one session per key, at most 16, truthful
     count and flags) -/
@@ -271,18 +283,8 @@ theorem reach (ops : List Op) (now0 : Nat) : TInv (ops.foldl stepOp (Table.creat
   | nil => intro s h; exact h
   | cons op ops ih =>
     intro s h
-    obtain ⟨t, now⟩ := s
     simp only [List.foldl_cons]
-    apply ih
-    cases op with
-    | add m g q => exact add_inv t m g q now h
-    | find m g => exact h
-    | remove m g => exact (remove_inv_spec t m g now h).1
-    | clear => exact create_inv
-    | complete m g => exact (complete_inv_spec t m g now h).1
-    | update => exact updateStatus_inv t h.len h.nodup h.count
-    | expire => exact (expire_inv_spec t now h).1
-    | advance s => exact h
+    exact ih _ (reach_step s op h)
 
 /-- adding to a full table fails without disturbing existing sessions -/
 theorem add_full (t : Table) (mac : Mac) (gen seq now : Nat) (h : TInv t) (hfull : (liveS t.entries).length = 16)
